@@ -5,6 +5,7 @@
   Lean monitors over the implementation's events.
 -/
 import CppUtil.Model.WClient
+import CppUtil.Model.WClientWF
 import CppUtil.Model.MClient
 import CppUtil.Monitor.Excl
 import CppUtil.Gen.Pess
@@ -176,6 +177,8 @@ structure Stats where
   protoSteps : Nat := 0
   protoOutside : Nat := 0
   protoScen : Nat := 0
+  wfChecked : Nat := 0
+  wfTrue : Nat := 0
 
 def bump (l : List (String × Nat)) (k : String) : List (String × Nat) :=
   if l.any (·.1 == k) then l.map (fun p => if p.1 == k then (p.1, p.2 + 1) else p) else l ++ [(k, 1)]
@@ -190,6 +193,8 @@ structure Run where
   words : List (Nat × Nat) := []
   /-- threads whose latest quantum announced the end of a grant (`G-`): their releasing operation is still to come -/
   pendingRel : List Nat := []
+  /-- word-lock scenarios: the programs meet the premise `wfB` of the guard-algebra theorems -/
+  wf : Option Bool := none
 
 def mcsParams : Mcs.Params :=
   { C := Gen.mcsConsts, ord := Gen.mcsOrders, publishStore := Gen.mcsPublishIsStore }
@@ -204,7 +209,9 @@ def mkSim (sc : Scen) : Sim :=
   else if sc.comp == "opt" then .w (Gen.opt sc.retry) { WClient.mkClient sc.nlocks sc.kinds sc.progs with versioned := true }
   else .w (Gen.pess sc.retry) (WClient.mkClient sc.nlocks sc.kinds sc.progs)
 
-def mkRun (sc : Scen) : Run := { sc := sc, sim := mkSim sc }
+def mkRun (sc : Scen) : Run :=
+  let sim := mkSim sc
+  { sc := sc, sim := sim, wf := match sim with | .w _ c => some (WClient.wfB c) | _ => none }
 
 /-- instruction-aware part of the monitors: `R<k>=res` tokens -/
 def monResult (r : Run) (tid : Nat) (tok : String) : MonSt :=
@@ -388,7 +395,8 @@ partial def loop (h : IO.FS.Stream) (cur : Option Run) (pend : Scen) (st : Stats
         | (lk, w) :: _ => addMsg leak s!"guard: every guard has been released, but the word of lock {lk} (0x{String.ofList (Nat.toDigits 16 w)}) still shows a grant: a grant was dropped without being released, or released twice"
         | [] => leak
       else leak
-    IO.println s!"RES {r.sc.id} end={status}{protoS} steps={r.step} corr={corr} ;; mon={leak} ;; hb={hbS}"
+    let wfS := match r.wf with | some true => " wf=1" | some false => " wf=0" | none => ""
+    IO.println s!"RES {r.sc.id} end={status}{protoS}{wfS} steps={r.step} corr={corr} ;; mon={leak} ;; hb={hbS}"
     let st := { st with scen := st.scen + 1,
                         mismatches := st.mismatches + (if corr == "ok" then 0 else 1),
                         monFails := st.monFails + (if leak == "ok" then 0 else 1),
@@ -396,6 +404,8 @@ partial def loop (h : IO.FS.Stream) (cur : Option Run) (pend : Scen) (st : Stats
                         grants := st.grants + r.mon.nGrants, conv := st.conv + r.mon.nConv,
                         bools := st.bools + r.mon.nBool, pays := st.pays + r.mon.nPay,
                         maxSimul := max st.maxSimul r.mon.maxSimul,
+                        wfChecked := st.wfChecked + (match r.wf with | some _ => 1 | none => 0),
+                        wfTrue := st.wfTrue + (match r.wf with | some true => 1 | _ => 0),
                         protoSteps := st.protoSteps + (match r.sim.proto with | some (k, _) => k | none => 0),
                         protoScen := st.protoScen + (match r.sim.proto with | some (_, .ok) => 1 | _ => 0),
                         protoOutside := st.protoOutside + (match r.sim.proto with | some (_, .outside _) => 1 | _ => 0) }
@@ -423,5 +433,5 @@ def main (args : List String) : IO UInt32 := do
   let stdin ← IO.getStdin
   let st ← loop stdin none {} {}
   let kinds := ", ".intercalate (st.evKinds.map fun (k, n) => s!"\"{k}\": {n}")
-  IO.println s!"STATS \{\"scenarios\": {st.scen}, \"quanta\": {st.quanta}, \"mismatches\": {st.mismatches}, \"monitor_failures\": {st.monFails}, \"not_ok_end\": {st.stuck}, \"cas_failures\": {st.casFail}, \"grants\": {st.grants}, \"conversions\": {st.conv}, \"bool_checks\": {st.bools}, \"payload_reads\": {st.pays}, \"max_simultaneous_grants\": {st.maxSimul}, \"proto_lockstep_actions\": {st.protoSteps}, \"proto_lockstep_scenarios\": {st.protoScen}, \"proto_outside_premise\": {st.protoOutside}, \"events\": \{{kinds}}}"
+  IO.println s!"STATS \{\"scenarios\": {st.scen}, \"quanta\": {st.quanta}, \"mismatches\": {st.mismatches}, \"monitor_failures\": {st.monFails}, \"not_ok_end\": {st.stuck}, \"cas_failures\": {st.casFail}, \"grants\": {st.grants}, \"conversions\": {st.conv}, \"bool_checks\": {st.bools}, \"payload_reads\": {st.pays}, \"max_simultaneous_grants\": {st.maxSimul}, \"proto_lockstep_actions\": {st.protoSteps}, \"proto_lockstep_scenarios\": {st.protoScen}, \"proto_outside_premise\": {st.protoOutside}, \"client_wf_checked\": {st.wfChecked}, \"client_wf_true\": {st.wfTrue}, \"events\": \{{kinds}}}"
   return 0
